@@ -145,6 +145,10 @@ func planFor(c *Ctx, prop string) compPlan {
 		p.nAB, p.nRand, p.nLarge = int64(gen.ABCount(12)), 6000, 80
 		if thorough {
 			p.nAB, p.nRand, p.nLarge = int64(gen.ABCount(17)), 60000, 600
+			if prop == "C10" {
+				// eight destination sizes per entry point: keep the thorough tier within ~30 min
+				p.nAB, p.nRand, p.nLarge = int64(gen.ABCount(15)), 20000, 200
+			}
 		}
 	case "C11":
 		p.nAB, p.nRand, p.nLarge = int64(gen.ABCount(8)), 1200, 8
